@@ -336,6 +336,9 @@ def gen_exp_scenario(r, kind=None, dim_max=5):
             k["initial_point"] = ip
     if kind in ("MH", "MALA", "NUTS", "ULA", "LinearRTO") and "initial_point" in k and r.random() < 0.12:
         k["ip_cuqiarray"] = True          # the start vector is handed over as a geometry-carrying CUQIarray
+    elif kind in ("MH", "CWMH", "MALA", "ULA", "NUTS", "PCN") and "initial_point" in k and r.random() < 0.08 \
+            and t.get("kind") not in ("boxed", "post_mapped"):
+        k["ip_int"] = True
     if kind == "MH":
         k["scale"] = round(r.choice([0.05, 0.3, 0.8, 1.0, 2.5]), 3)
         if r.random() < 0.2:
@@ -436,10 +439,13 @@ def build_exp_sampler(ctx, sc, callback=None, target=None):
     k = dict(sc["knobs"])
     if "initial_point" in k and k["initial_point"] is not None:
         k["initial_point"] = np.array(k["initial_point"], float)
+        if k.pop("ip_int", False):
+            k["initial_point"] = np.round(3 * k["initial_point"]).astype(int)      # an integer-typed start vector
         if k.pop("ip_cuqiarray", False):
             from cuqi.array import CUQIarray
             k["initial_point"] = CUQIarray(k["initial_point"], geometry=target.geometry)
     k.pop("ip_cuqiarray", None)
+    k.pop("ip_int", None)
     if isinstance(k.get("scale"), list):
         k["scale"] = np.array(k["scale"], float)
     prop = k.pop("proposal", None)
@@ -709,8 +715,11 @@ def build_legacy_sampler(ctx, sc, callback=None):
         probe = info["logd"]
         target = (lambda x: probe(x))
         k["dim"] = sc["target"]["dim"]
+    ip_int = k.pop("ip_int", False)
     if k.get("x0") is not None:
         k["x0"] = np.array(k["x0"]) if all(isinstance(v, int) for v in k["x0"]) else np.array(k["x0"], float)
+        if ip_int:
+            k["x0"] = np.round(3 * k["x0"]).astype(int)                           # an integer-typed start vector
     else:
         k.pop("x0", None)
     if isinstance(k.get("scale"), list):
